@@ -412,7 +412,7 @@ def run(run):
     run.alphabets = {"filters": F}
     run.assumptions += ["reference evaluator in mc/checks/c12_filters.py; stored view = include_optional_defaults serialization of what the store returns for the empty query",
                         "only type-consistent filters; 'contains' never exercised with a label that is a proper substring of another"]
-    run.pmap(run_case, cases)
+    run.pmap(run_case, cases, order_independent=True)
     run.part.sample({"filters": [["type", "!=", "malware"], ["id", "in", [M1, IND]]], "routes": [["attached", "composite"]], "store": "fs",
                      "expected": [[IND, "2020-01-02T00:00:00.000Z"]]})
     run.part.sample({"filters": [["modified", "<=", ["$dt", "2020-01-02T00:00:00Z"]], ["labels", "contains", "a"]], "routes": [["query", "query"]], "store": "mem"})
